@@ -133,9 +133,34 @@ def pool(n=None):
     return _pool
 
 
+def _kill_children_of(pids):
+    """SIGKILL every process whose parent is one of `pids` (targets started by pool workers: a worker that is terminated at
+    the tier deadline cannot reap a target that hangs, and a hung target would otherwise spin on after the check has exited)"""
+    pids = set(pids)
+    for ent in os.listdir('/proc'):
+        if not ent.isdigit():
+            continue
+        try:
+            with open('/proc/%s/stat' % ent) as f:
+                st = f.read()
+            ppid = int(st[st.rindex(')') + 2:].split()[1])
+        except Exception:
+            continue
+        if ppid in pids:
+            _kill_children_of([int(ent)])
+            try:
+                os.kill(int(ent), signal.SIGKILL)
+            except OSError:
+                pass
+
+
 def _close_pool():
     global _pool
     if _pool is not None:
+        try:
+            _kill_children_of([p.pid for p in _pool._pool])
+        except Exception:
+            pass
         _pool.terminate()
         _pool.join()
         _pool = None
